@@ -17,7 +17,6 @@
 package main
 
 import (
-	"encoding/json"
 	"flag"
 	"fmt"
 	"os"
@@ -244,37 +243,11 @@ func (a *actor) act(point string, i int) {
 			q.Height = hs[r.Intn(len(hs))]
 			all := append(append(append(append([]chain.Key{}, a.e.w.Vals...), a.e.w.Servs...), a.e.w.Apps...), a.e.w.Accts...)
 			addr := all[r.Intn(len(all))].Addr
-			js := func(v interface{}) []byte { b, _ := json.Marshal(v); return b }
-			type addrParam struct{ Address sdk.Address }
-			routes := []struct {
-				path string
-				data []byte
-			}{
-				{"custom/application/application", js(addrParam{addr})},
-				{"custom/application/applications", js(map[string]interface{}{"page": 1, "per_page": 100})},
-				{"custom/application/parameters", nil},
-				{"custom/application/appStakedPool", nil},
-				{"custom/pos/validator", js(addrParam{addr})},
-				{"custom/pos/validators", js(map[string]interface{}{"page": 1, "per_page": 100})},
-				{"custom/pos/signingInfos", js(map[string]interface{}{"Page": 1, "Limit": 100})},
-				{"custom/pos/account_balance", js(addrParam{addr})},
-				{"custom/pos/account", js(addrParam{addr})},
-				{"custom/pos/total_supply", nil},
-				{"custom/pos/stakedPool", nil},
-				{"custom/pos/parameters", nil},
-				{"custom/auth/account", js(addrParam{addr})},
-				{"custom/gov/acl", nil},
-				{"custom/gov/dao", nil},
-				{"custom/gov/daoOwner", nil},
-				{"custom/gov/upgrade", nil},
-				{"custom/pocketcore/supportedBlockchains", nil},
-				{"custom/pocketcore/parameters", nil},
-				{"custom/nosuch/route", nil},
-			}
+			routes := append(append(chainx.AppRoutes(addr), chainx.NodeRoutes(addr)...), chainx.DispatchRoute(a.e.w.Apps[r.Intn(2)]))
 			rt := routes[r.Intn(len(routes))]
-			q.Path, q.Data = rt.path, rt.data
+			q.Path, q.Data = rt.Path, rt.Data
 			code := queryRecover(n, q)
-			a.emit(point, fmt.Sprintf("%s@%d", rt.path, q.Height), code, before, "ante=- msg=-")
+			a.emit(point, fmt.Sprintf("%s@%d", rt.Path, q.Height), code, before, "ante=- msg=-")
 		case "simulate":
 			var bz []byte
 			desc, marks := "", "ante=- msg=-"
